@@ -168,25 +168,53 @@ def cresult(thunk, ok_printer) -> tuple[str, object]:
 
 # ------------------------------------------------------------------ cases files
 class Cases:
-    """Collects (triangle definitions, boolean case expressions) and evaluates them inside coqc.
-    Each case: (expr, tag, payload); `failing()` returns the payloads of the cases evaluating to false."""
+    """Collects definitions and boolean case expressions and evaluates them inside coqc.
+    add(expr, payload): one case; run() returns the payloads of the cases evaluating to false.
+    shared: definitions repeated in every file (e.g. a cell universe).
+    lit(cell): a term denoting the cell through a per-file table of distinct literals (coqc parses
+    ~6 ms per cell literal, so repeated output cells are written once)."""
 
-    def __init__(self, ctx, prefix, imports, per_file_cells=260, per_file_cases=1500):
+    DUMMY = "(mkCell KCell 0 0 0 None default_meta [])"
+
+    def __init__(self, ctx, prefix, imports, per_file_cells=260, per_file_cases=1500, shared=()):
         self.ctx, self.prefix, self.imports = ctx, prefix, imports
         self.per_file_cells, self.per_file_cases = per_file_cells, per_file_cases
-        self.files = []          # list of (defs:list[str], cases:list[(expr, payload)])
+        self.shared = list(shared)      # (text, ncells)
+        self.files = []
         self._new()
 
     def _new(self):
-        self.cur = {"defs": [], "cases": [], "cells": 0}
+        self.cur = {"defs": [t for t, _ in self.shared], "cases": [], "cells": sum(n for _, n in self.shared),
+                    "lits": {}, "lit_terms": []}
         self.files.append(self.cur)
 
+    def full(self):
+        return self.cur["cells"] > self.per_file_cells or len(self.cur["cases"]) >= self.per_file_cases
+
+    def begin_case(self):
+        """call before building a case that uses lit(): may start a new file"""
+        if self.full() and self.cur["cases"]:
+            self._new()
+
     def add_def(self, name, term, ncells, ty="list cell"):
-        if self.cur["cells"] + ncells > self.per_file_cells or len(self.cur["cases"]) > self.per_file_cases:
-            if self.cur["defs"]:
-                self._new()
+        if (self.cur["cells"] + ncells > self.per_file_cells or len(self.cur["cases"]) > self.per_file_cases) \
+                and self.cur["cases"]:
+            self._new()
         self.cur["defs"].append(f"Definition {name} : {ty} :=\n  {term}.")
         self.cur["cells"] += ncells
+
+    def lit(self, cell):
+        key = ct.canon_cell(cell, ordered=True)
+        i = self.cur["lits"].get(key)
+        if i is None:
+            i = len(self.cur["lit_terms"])
+            self.cur["lits"][key] = i
+            self.cur["lit_terms"].append(ct.ccell(cell))
+            self.cur["cells"] += 1
+        return f"(L {i})"
+
+    def lits(self, cells):
+        return "[" + ";".join(self.lit(c) for c in cells) + "]"
 
     def add(self, expr, payload):
         self.cur["cases"].append((expr, payload))
@@ -201,7 +229,9 @@ class Cases:
             if not f["cases"]:
                 continue
             body = ";\n  ".join(e for e, _ in f["cases"])
-            txt = (ct.COQ_HEADER + self.imports + "\n" + "\n".join(f["defs"]) + "\n"
+            table = ("Definition lit_table : list cell :=\n  [" + ";\n   ".join(f["lit_terms"]) + "].\n"
+                     f"Definition L (i : nat) : cell := nth i lit_table {self.DUMMY}.\n")
+            txt = (ct.COQ_HEADER + self.imports + "\n" + table + "\n".join(f["defs"]) + "\n"
                    + "Definition cases : list bool := [\n  " + body + "].\n"
                    + "Eval vm_compute in failing cases.\n")
             p = self.ctx.build / f"{self.prefix}_{i}.v"
